@@ -1,6 +1,7 @@
 package stackh
 
 import (
+	"fmt"
 	"strings"
 
 	"github.com/lightninglabs/lightning-node-connect/gbn/vrt"
@@ -33,14 +34,50 @@ type jobSet struct {
 
 func bs(b ...explore.Budget) []explore.Budget { return b }
 
+// sizeProduct is the canonical-schedule product for C05: every sequence of
+// nc client writes and ns server writes with sizes from the given set.
+func sizeProduct(sizes []int, nc, ns int) []string {
+	var seqs func(n int) []string
+	seqs = func(n int) []string {
+		if n == 0 {
+			return []string{""}
+		}
+		var out []string
+		for _, rest := range seqs(n - 1) {
+			for _, z := range sizes {
+				if rest == "" {
+					out = append(out, fmt.Sprint(z))
+				} else {
+					out = append(out, rest+","+fmt.Sprint(z))
+				}
+			}
+		}
+		return out
+	}
+	var out []string
+	for _, c := range seqs(nc) {
+		for _, sv := range seqs(ns) {
+			out = append(out, "e2e/c2s="+c+"/s2c="+sv)
+		}
+	}
+	return out
+}
+
 var jobTable = map[string]jobSet{
 	"C05": {
 		quick: []Job{
+			// every mix of two client writes and one server write over
+			// sizes around the 32 KiB gRPC split and the 64 KiB record limit
+			{Scenario: "size-product(c2s: 2 of {1,100,32768,32769,65535}; s2c: 1)",
+				Scenarios: sizeProduct([]int{1, 100, 32768, 32769, 65535}, 2, 1), Budgets: bs(B(0, 0))},
 			{Scenario: "e2e/c2s=1,100/s2c=32768", Budgets: bs(B(1, 0)), Split: 1},
 			{Scenario: "e2e/c2s=65535/s2c=1,100/drop/kill", Budgets: bs(B(0, 2)), Split: 1},
 			{Scenario: "e2e/c2s=100,32768/s2c=65535/closer=server/drop/kill", Budgets: bs(B(0, 1)), Split: 1},
 		},
 		thorough: []Job{
+			{Scenario: "size-product(c2s: 2 of {1,2,100,32767,32768,32769,65534,65535}; s2c: 2 of {1,100,32768,65535})",
+				Scenarios: append(sizeProduct([]int{1, 2, 100, 32767, 32768, 32769, 65534, 65535}, 2, 1),
+					sizeProduct([]int{1, 100, 32768, 65535}, 1, 2)...), Budgets: bs(B(0, 0))},
 			{Scenario: "e2e/c2s=1,100/s2c=32768", Budgets: bs(B(2, 0)), Filter: "mailbox", Split: 2},
 			{Scenario: "e2e/c2s=65535/s2c=1,100/drop/kill", Budgets: bs(B(2, 1), B(1, 2), B(0, 3)), Filter: "mailbox", Split: 2},
 			{Scenario: "e2e/c2s=100,32768/s2c=65535/closer=server/drop/kill", Budgets: bs(B(1, 1), B(0, 2)), Split: 2},
